@@ -138,7 +138,37 @@ fn check_cell(c: &Cell, st: &mut Stats) -> Result<(), String> {
                         } else if b.is_ended() {
                             Framing::Length(0)
                         } else {
-                            match b.read(probe, &mut out) {
+                            // whether reads stop at chunk boundaries by default is not stated anywhere: the probe is read in as many
+                            // calls as the reader wants (a chunked reader ends after delivering exactly "A" and consuming the probe)
+                            let first = b.read(probe, &mut out);
+                            let first = match first {
+                                Ok((i, 1)) if i < probe.len() && out[0] == b'A' && !b.is_ended() => {
+                                    let mut used = i;
+                                    let mut extra_out = 0;
+                                    for _ in 0..4 {
+                                        if b.is_ended() || used == probe.len() {
+                                            break;
+                                        }
+                                        match b.read(&probe[used..], &mut out[1..]) {
+                                            Ok((i2, o2)) => {
+                                                used += i2;
+                                                extra_out += o2;
+                                                if i2 == 0 {
+                                                    break;
+                                                }
+                                            }
+                                            Err(e) => return Err(format!("{}: probe read failed: {:?}", what(), e)),
+                                        }
+                                    }
+                                    if extra_out == 0 && used == probe.len() {
+                                        Ok((used, 1))
+                                    } else {
+                                        Ok((i, 1))
+                                    }
+                                }
+                                other => other,
+                            };
+                            match first {
                                 Ok((i, 1)) if i == probe.len() && out[0] == b'A' && b.is_ended() => Framing::Chunked,
                                 Ok((i, o)) if i == o && out[..o] == probe[..o] => {
                                     // length-delimited: the count is min(n, |probe|)
